@@ -277,11 +277,16 @@ Record exec_result := mkexec {
   x_log : list store_call            (* store calls, in order *)
 }.
 
-Definition run_program (p : program) (raw : list (string * string)) (sb : store) (flag : bool) : res exec_result :=
+(* everything RunProgram does before the first statement runs *)
+Definition prepare (p : program) (raw : list (string * string)) (sb : store) (flag : bool) : res (env * rstate) :=
   let rs0 := mkrstate [] [] 0 [] in
   '(vs, rs1) <- parse_vars sb flag (p_vars p) raw [] rs0 ;;
   q <- find_queries_stmts vs (p_stmts p) (rs_query rs1) ;;
   rs2 <- lift_store QueryBalanceError
            (run_balances_query sb (mkrstate (rs_cache rs1) q (rs_ncalls rs1) (rs_log rs1))) ;;
+  Ok (vs, rs2).
+
+Definition run_program (p : program) (raw : list (string * string)) (sb : store) (flag : bool) : res exec_result :=
+  '(vs, rs2) <- prepare p raw sb flag ;;
   '(ps, st) <- run_stmts vs (p_stmts p) (mkstate (rs_cache rs2) [] []) ;;
   Ok (mkexec ps (st_txmeta st) (st_accmeta st) (rev (rs_log rs2))).
